@@ -146,7 +146,9 @@ def handle (op : String) (a : Json) : P Json := do
     let ls ← getList idLanOf a "lanelets"
     let built ← getBool a "built"
     let entries := ls.map (fun p => (p.1, p.2.xy))
-    let n : Net := { lanelets := ls, buffered := entries, tree := if built then some entries else none }
+    -- since fix 790d303 an empty LaneletNetwork() has an (empty) index too, so the tree is always built
+    let _ := built
+    let n : Net := { lanelets := ls, buffered := entries, tree := some entries }
     let ops ← getList netOpOf a "ops"
     pure <| Json.arr ((n.run ops).1.map netAnsJ).toArray
   | "lan_run" =>
